@@ -6,6 +6,7 @@ import itertools
 from .. import core
 
 LEVEL = "proof"
+READY = True
 CLAIM = {
     "text": "Lean theorem chain_refines_list: for EVERY chain of limit/head/first, drop/skip, tail/last, take, tee, first_one/one, last_one calls with every integer count "
             "(negative included) over a match sequence of every length, the model of the Query iterator (explicit iterator protocol: islice wrapping, eager advance, deque, "
